@@ -1,9 +1,12 @@
 """Canonical (hashable) forms of live objects, built from vars() so that a new attribute of a later
 version of a class automatically becomes part of the key (DESIGN.md 3.3)."""
+import re
 from collections import deque
 from fractions import Fraction
 
 import numpy as np
+
+_ADDR = re.compile(r' at 0x[0-9a-fA-F]+')
 
 
 def canon(o, depth=0):
@@ -30,4 +33,8 @@ def canon(o, depth=0):
             (k, canon(v, depth + 1)) for k, v in sorted(vars(o).items()))
     if callable(o):
         return ('fn', getattr(o, '__name__', type(o).__name__))
-    return ('r', repr(o))
+    try:                                 # opaque extension objects: their pickled state, if any
+        import pickle
+        return ('p', type(o).__name__, pickle.dumps(o, protocol=4))
+    except Exception:
+        return ('r', _ADDR.sub('', repr(o)))
